@@ -224,6 +224,29 @@ fn check_case(c: &Case, cx: &mut Cx) -> Res {
     } else {
         ensure!(v.dev.is_none(), "dev = {:?} although not dirty{} ({ctx})", v.dev, if r.tag_mode { "/ahead" } else { "" });
     }
+    // the derived parts are also what gets PRINTED: with a schema that adapts to the state
+    // (no --schema, standard, standard-no-context, standard-context) or that has all three slots,
+    // pre-release, post and dev of the variables show up in the SemVer output
+    let schema_name = c.schema.map(|s| STD_SCHEMAS[s % STD_SCHEMAS.len()]);
+    // (without --schema a stdin object keeps its own schema, which need not have the slots)
+    if (schema_name.is_none() && !c.via_stdin) || matches!(schema_name, Some("standard") | Some("standard-no-context") | Some("standard-context") | Some("standard-base-prerelease-post-dev") | Some("standard-base-prerelease-post-dev-context")) {
+        let mut a: Vec<String> = argv.iter().filter(|x| !x.starts_with("--output-format")).cloned().collect();
+        a.push("--output-format=semver".into());
+        if let cli::Run::Ok(text) = cli::flow(&a, stdin.as_deref()) {
+            let pre_part = text.split('+').next().unwrap_or("").split_once('-').map(|x| x.1.to_string()).unwrap_or_default();
+            let ids: Vec<&str> = pre_part.split('.').collect();
+            cx.label("printed-parts-checked");
+            // (an explicit --dirty / --no-dirty / --clean decides the tier of an adapting schema
+            //  by itself - C06 - so dev is only required to be printed without such a flag)
+            if v.dev.is_some() && c.dirt == 0 {
+                ensure!(ids.contains(&"dev"), "flow derives dev = {:?} but prints {text:?} without a dev part (schema {schema_name:?}; {ctx})", v.dev);
+            }
+            if v.post.is_some() {
+                ensure!(ids.contains(&"post"), "flow derives post = {:?} but prints {text:?} without a post part (schema {schema_name:?}; {ctx})", v.post);
+            }
+            ensure!(ids.contains(&LABELS[gl as usize]), "flow derives the pre-release label {} but prints {text:?} (schema {schema_name:?}; {ctx})", LABELS[gl as usize]);
+        }
+    }
     Ok(())
 }
 
